@@ -113,7 +113,7 @@ func TestRawFrames(t *testing.T) {
 			return
 		}
 	}
-	kit.Check(t, kit.Spec[RawCase]{Sub: "raw", Quick: 60, Thorough: 3000,
+	kit.Check(t, kit.Spec[RawCase]{Sub: "raw", Quick: 60, Thorough: 1200,
 		Gen: func(t *rapid.T) RawCase {
 			var c RawCase
 			for i, n := 0, rapid.IntRange(1, 4).Draw(t, "n"); i < n; i++ {
